@@ -201,7 +201,7 @@ func runC20(c *Ctx) {
 }
 
 var c20ControllerNoAnnotations = map[string]string{
-	"GetCheckClientForWorkspace": "builds no image and runs no check: cannot produce a FileAnnotationSet",
+	"GetCheckClientForWorkspace":  "builds no image and runs no check: cannot produce a FileAnnotationSet",
 	"GetImportableImageFileInfos": "",
 }
 
